@@ -1,7 +1,9 @@
-// C01 — message framing round-trip for every codec            vp-link: core
+// C01 — message framing round-trip for every codec            vp-link: core cxx
 //
 // G: framing x message (run structured) x push splits x output-capacity growth schedule, through
-//    (a) the encoder function on an exact-size heap window, (b) mpt_array_push on an encode_array.
+//    (a) the encoder function on an exact-size heap window, (b) mpt_array_push on an encode_array,
+//    (c) the C++ encode_array: messages handed over as fragment lists (push(const message &)) or in pieces,
+//        finished bytes taken out in drawn portions (data()/shift(n)) and the rest moved to the front (shift()).
 // O: library decoder(frame) == message; frame has exactly one zero (the delimiter, last byte);
 //    reference decoder agrees; encoder accounting (consumed == pushed, done+scratch <= capacity).
 #include "vp.hpp"
@@ -186,6 +188,124 @@ static void decode_lib(Ctx &c, int fr, const std::vector<uint8_t> &frame, const 
   VP_CHECK(c, st.curr == prefix + frame.size(), "decode-consumed", "%s: consumed up to %zu, frame ends at %zu", kName[fr], st.curr, prefix + frame.size());
 }
 
+// ---- (c) C++ encode_array: a few messages, each handed over as a fragment list or in pieces, while the finished
+// bytes are taken out in drawn portions; everything taken out, in order, must be the frames of the messages
+static void run_cxx(Ctx &c, int fr) {
+  c.logf("framing=%s entry=c++ encode_array", kName[fr]);
+  c.label(kName[fr]);
+  c.label("entry:cxx-encode_array");
+  encode_array arr(mpt_message_encoder(kEncoding[fr]));
+  std::vector<uint8_t> wire;      // bytes taken out so far
+  std::vector<uint8_t> finished;  // wire + what data() showed at the last look: finished bytes never change
+  std::vector<std::vector<uint8_t>> sent;
+  bool nt = false;
+  auto look = [&](const char *after) {
+    span<const uint8_t> d = arr.data();
+    VP_CHECK(c, d.size() == arr._state.done, "cxx-data", "after %s: data() has %zu bytes, %zu are finished", after, (size_t)d.size(), arr._state.done);
+    CBuf *b = cbuf(arr._d);
+    size_t used = b ? b->used : 0;
+    VP_CHECK(c, arr._state.done + arr._state.scratch <= used, "encoder-accounting", "after %s: done %zu + scratch %zu > used %zu", after, arr._state.done, arr._state.scratch, used);
+    std::vector<uint8_t> now = wire;
+    if (d.size()) now.insert(now.end(), d.begin(), d.end());
+    VP_CHECK(c, now.size() >= finished.size() && !memcmp(now.data(), finished.data(), finished.size()), "cxx-finished-changed",
+             "after %s: finished bytes changed: had %zu bytes %s, now %zu bytes %s", after, finished.size(), hex(finished.data(), finished.size(), 32).c_str(), now.size(),
+             hex(now.data(), now.size(), 32).c_str());
+    finished = now;
+  };
+  auto side = [&]() {  // drawn operation between pushes
+    switch (c.weighted({4, 3, 2, 1})) {
+      case 0: break;
+      case 1: {  // take finished bytes out
+        span<const uint8_t> d = arr.data();
+        size_t done = arr._state.done;
+        size_t k = c.flip() ? done : c.range(0, done);
+        if (!k) break;
+        wire.insert(wire.end(), d.begin(), d.begin() + k);
+        bool ok = arr.shift(k);
+        c.logf("  shift(%zu) of %zu finished = %d", k, done, (int)ok);
+        VP_CHECK(c, ok && arr._state.done == done - k, "cxx-shift", "shift(%zu) with %zu finished bytes returned %d, %zu finished left", k, done, (int)ok, arr._state.done);
+        c.label(k < done ? "cxx:take-part" : "cxx:take-all");
+        look("shift(n)");
+        break; }
+      case 2: {  // move the live part to the front
+        CBuf *b = cbuf(arr._d);
+        size_t used = b ? b->used : 0, live = arr._state.done + arr._state.scratch;
+        bool ok = arr.shift(0);
+        c.logf("  shift() with %zu used, %zu live = %d", used, live, (int)ok);
+        VP_CHECK(c, ok == (used > live), "cxx-compact", "shift() with %zu bytes in the array, %zu of them live, returned %d", used, live, (int)ok);
+        b = cbuf(arr._d);
+        VP_CHECK(c, !ok || (b && b->used == live), "cxx-compact", "after shift() the array holds %zu bytes, %zu are live", b ? b->used : 0, live);
+        if (ok) { c.label("cxx:compact"); if (live) nt = true; }
+        look("shift()");
+        break; }
+      default: {  // more than is finished cannot be taken
+        size_t done = arr._state.done;
+        bool ok = arr.shift(done + c.range(1, 9));
+        VP_CHECK(c, !ok && arr._state.done == done, "cxx-shift", "shift beyond the %zu finished bytes returned %d, %zu finished now", done, (int)ok, arr._state.done);
+        look("refused shift");
+      }
+    }
+  };
+  size_t nmsg = c.range(1, 4);
+  for (size_t k = 0; k < nmsg; k++) {
+    std::vector<uint8_t> msg = msggen::message(c, k ? 300 : 700, fr == FCommand);
+    c.loghex("message", msg.data(), msg.size());
+    std::vector<size_t> sp = splits(c, msg.size());
+    size_t off = 0, i = 0;
+    size_t pieces = c.weighted({2, 1, 1}) == 0 ? 0 : c.range(0, sp.size());  // leading splits pushed one by one, the rest as one fragmented message
+    for (; i < pieces; i++) {
+      ssize_t r = arr.push(sp[i], msg.data() + off);
+      VP_CHECK(c, r == (ssize_t)sp[i], "push-refused", "%s: encode_array::push(%zu) returned %zd", kName[fr], sp[i], r);
+      off += sp[i];
+      look("push(len, data)");
+      side();
+    }
+    if (i < sp.size()) {
+      std::vector<struct iovec> vec;
+      message m(msg.data() + off, sp[i]);
+      if (c.chance(64)) { m.used = 0; vec.push_back({(void *)(msg.data() + off), sp[i]}); }  // empty head part
+      off += sp[i];
+      for (++i; i < sp.size(); i++) {
+        if (c.chance(50)) vec.push_back({(void *)(msg.data() + off), 0});
+        vec.push_back({(void *)(msg.data() + off), sp[i]});
+        off += sp[i];
+      }
+      if (c.chance(50)) vec.push_back({(void *)(msg.data() + off), 0});
+      m.cont = vec.data();
+      m.clen = vec.size();
+      c.logf("  push(message: %zu bytes + %zu further parts)", m.used, m.clen);
+      bool ok = arr.push(m);
+      VP_CHECK(c, ok, "push-refused", "%s: encode_array::push(message of %zu parts) refused", kName[fr], vec.size() + 1);
+      c.label(vec.empty() ? "cxx:message-one-part" : "cxx:message-fragments");
+      if (!vec.empty()) nt = true;
+      look("push(message)");
+      side();
+    }
+    ssize_t r = arr.push(0, 0);
+    VP_CHECK(c, r >= 0 && arr._state.scratch == 0, "push-refused", "%s: terminating push returned %zd, scratch %zu", kName[fr], r, arr._state.scratch);
+    look("terminate");
+    sent.push_back(msg);
+    side();
+    if (c.flip()) side();
+  }
+  // take the rest and compare frame by frame
+  { span<const uint8_t> d = arr.data(); if (d.size()) wire.insert(wire.end(), d.begin(), d.end()); }
+  VP_CHECK(c, wire == finished, "cxx-finished-changed", "bytes taken out (%zu) differ from the finished bytes seen (%zu)", wire.size(), finished.size());
+  size_t pos = 0;
+  for (size_t k = 0; k < sent.size(); k++) {
+    size_t end = pos;
+    while (end < wire.size() && wire[end]) ++end;
+    VP_CHECK(c, end < wire.size(), "frame-delimiter", "%s: no delimiter for message %zu of %zu in %zu wire bytes", kName[fr], k + 1, sent.size(), wire.size());
+    std::vector<uint8_t> frame(wire.begin() + pos, wire.begin() + end + 1);
+    check_frame(c, fr, frame, sent[k]);
+    decode_lib(c, fr, frame, sent[k]);
+    pos = end + 1;
+  }
+  VP_CHECK(c, pos == wire.size(), "cxx-extra-bytes", "%s: %zu bytes behind the last of %zu frames", kName[fr], wire.size() - pos, sent.size());
+  if (sent.size() > 1) c.label("cxx:several-messages");
+  if (nt) c.nontrivial();
+}
+
 static void classify(Ctx &c, int fr, const std::vector<uint8_t> &msg, bool retried) {
   bool nt = retried;
   size_t maxd = (fr >= FZpe && fr != FCommand) ? 222 : 254, run = 0;
@@ -246,6 +366,7 @@ static void run(Ctx &c) {
     return;
   }
   int fr = sel % NFraming;
+  if (sel >= 0xd0) { run_cxx(c, fr); return; }
   int entry = (sel / NFraming) % 2;
   size_t maxlen = c.flip() ? 700 : 2200;
   std::vector<uint8_t> msg = msggen::message(c, maxlen, fr == FCommand);
@@ -281,11 +402,13 @@ static void enum_make(uint64_t idx, int, std::vector<uint8_t> &out) {
 
 static Target t = {
     "C01",
-    "random: framing (5) x entry point (encoder fn on exact-size window with drawn growth schedule | mpt_array_push behind 0-2 earlier frames) x "
+    "random: framing (5) x entry point (encoder fn on exact-size window with drawn growth schedule | mpt_array_push behind 0-2 earlier frames | "
+    "C++ encode_array: 1-4 messages handed over in pieces and/or as a fragmented message incl. empty parts, with finished bytes taken out in drawn portions by data()/shift(n), "
+    "the live part moved to the front by shift(), over-long shifts refused; all bytes taken out must be the frames in order) x "
     "run-structured message (non-zero runs near 30/31/222/223/254/255, zero runs, bytes >= 0xDE) x push splits; decode in place behind a scratch prefix, "
     "segmented and over 1-2 iovecs. exhaustive: all messages of length <= 4 over {00,01,02,DE,DF,E0,E1,FE,FF} x 5 framings x 2 entries x 3 split modes x 2 capacity modes. "
     "non-trivial: message crosses a block boundary, has a zero pair, ends in a tail-inline candidate, or the encoder had to be retried after MissingBuffer "
-    "(all enumerated cases count); distinct by hash of the draw sequence.",
+    "(all enumerated cases count), or a C++ case with a fragmented message or a compaction with live bytes; distinct by hash of the draw sequence.",
     run,
     {3000, 9000},
     false,
